@@ -205,6 +205,7 @@ class C20(Spec):
         N, ND = (16, 4) if tier == "quick" else (64, 5)
         j = [dict(kind="table")]
         j += [dict(kind="len", n=n) for n in range(0, N + 1)]
+        j += [dict(kind="len", n=n) for n in ((255, 256, 257) if tier == "quick" else (127, 128, 255, 256, 257, 511, 512, 513, 1024))]
         j += [dict(kind="direct", n=n) for n in range(0, ND + 1)]
         j += [dict(kind="linear")]
         j += [dict(kind=k) for k in ("single", "double", "burst", "bijection")]
